@@ -193,8 +193,16 @@ def check_attr(ctx):
         pull = model.lookup(cls.name, "pull")[1]
         rr = model.lookup(cls.name, "receive_reward")[1]
         glp = model.lookup(cls.name, "get_last_point")[1]
-        at.check(init, frozenset())
-        D0 = at.must_at_exit(init)
+        # attributes bound at class level (in the class body of the class or of a base) exist on every instance from the start
+        class_level = set()
+        for k in model.mro(cls.name):
+            for st in k.node.body:
+                tg = st.targets if isinstance(st, ast.Assign) else ([st.target] if isinstance(st, ast.AnnAssign) and st.value is not None else [])
+                for t in tg:
+                    if isinstance(t, ast.Name):
+                        class_level.add("self." + t.id)
+        at.check(init, frozenset(class_level))
+        D0 = at.must_at_exit(init) | class_level
         at.check(pull, frozenset(D0))
         D1 = D0 | at.must_at_exit(pull, value_returns_only=True)
         at.check(rr, frozenset(D1))
